@@ -35,11 +35,16 @@ func NewDir(prefix string) string {
 
 // CompileCDB compiles data text into a CDB file with the repository's compiler.
 func CompileCDB(text []byte, path string, workers int) (err error) {
+	return CompileCDBFrom(bytes.NewReader(text), path, workers)
+}
+
+// CompileCDBFrom is CompileCDB reading the data from any reader.
+func CompileCDBFrom(rd io.Reader, path string, workers int) (err error) {
 	w, err := cdb.NewWriter(path)
 	if err != nil {
 		return err
 	}
-	_, err = dnscdb.CreateCDBFromReader(bytes.NewReader(text), w, Serial, workers)
+	_, err = dnscdb.CreateCDBFromReader(rd, w, Serial, workers)
 	cerr := w.Close()
 	if err == nil {
 		err = cerr
@@ -61,6 +66,11 @@ type RDBOpts struct {
 
 // CompileRDB compiles data text into a fresh RocksDB directory.
 func CompileRDB(text []byte, dir string, o RDBOpts) error {
+	return CompileRDBFrom(bytes.NewReader(text), dir, o)
+}
+
+// CompileRDBFrom is CompileRDB reading the data from any reader.
+func CompileRDBFrom(rd io.Reader, dir string, o RDBOpts) error {
 	os.RemoveAll(dir)
 	if err := os.MkdirAll(dir, 0o755); err != nil {
 		return err
@@ -75,7 +85,7 @@ func CompileRDB(text []byte, dir string, o RDBOpts) error {
 		BatchNumParallel: o.BatchParallel,
 		BatchSize:        o.BatchSize,
 	}
-	_, err := rdb.Compile(bytes.NewReader(text), Serial, dir, opts)
+	_, err := rdb.Compile(rd, Serial, dir, opts)
 	return err
 }
 
